@@ -597,7 +597,7 @@ func datumValue(d *test_driver.Datum) Value {
 	case test_driver.KindBytes:
 		return d.GetBytes()
 	case test_driver.KindMysqlDecimal:
-		f, _ := strconv.ParseFloat(d.GetMysqlDecimal().String(), 64)
+		f, _ := strconv.ParseFloat(string(d.GetMysqlDecimal().ToString()), 64)
 		return f
 	case test_driver.KindBinaryLiteral:
 		return []byte(d.GetBinaryLiteral())
